@@ -34,8 +34,23 @@ PATS = ["a*", "*", "a.?", "x", "?b", "*c", "a.b"]
 # generation
 # ---------------------------------------------------------------------------------------
 
+FOCUS = {}
+
+
 def _o(rng, xs, p_none=0.35):
-    return None if rng.random() < p_none else rng.choice(xs)
+    if rng.random() < p_none:
+        return None
+    f = FOCUS.get(id(xs))
+    if f is not None and f in xs and rng.random() < 0.7:
+        return f
+    return rng.choice(xs)
+
+
+def _pick(rng, xs):
+    f = FOCUS.get(id(xs))
+    if f is not None and f in xs and rng.random() < 0.7:
+        return f
+    return rng.choice(xs)
 
 
 def gen_op(rng, alive, depth=0, in_script=False):
@@ -45,12 +60,12 @@ def gen_op(rng, alive, depth=0, in_script=False):
         obs = [o for o in obs if o != KILLABLE]
     r = rng.random()
     if not obs:
-        return ["post", rng.choice(NAMES), rng.choice(SENDERS), rng.randrange(3)]
+        return ["post", _pick(rng, NAMES), _pick(rng, SENDERS), rng.randrange(3)]
     if r < 0.22:
         return ["add", rng.choice(obs), rng.choice(METHS), _o(rng, NAMES), _o(rng, SENDERS),
                 _o(rng, IDENTS, 0.5)]
     if r < 0.47:
-        return ["post", rng.choice(NAMES), rng.choice(SENDERS), rng.randrange(3)]
+        return ["post", _pick(rng, NAMES), _pick(rng, SENDERS), rng.randrange(3)]
     if r < 0.54:
         return ["remove", rng.choice(obs), _o(rng, NAMES), _o(rng, SENDERS)]
     if r < 0.57:
@@ -59,7 +74,7 @@ def gen_op(rng, alive, depth=0, in_script=False):
         return ["has", rng.choice(obs), _o(rng, NAMES), _o(rng, SENDERS)]
     if r < 0.65:
         return ["find", _o(rng, obs, 0.6), _o(rng, NAMES, 0.6), _o(rng, SENDERS, 0.6), _o(rng, PATS, 0.5)]
-    scope = [_o(rng, NAMES, 0.55), _o(rng, SENDERS, 0.55), _o(rng, obs, 0.6)]
+    scope = [_o(rng, NAMES, 0.55), _o(rng, SENDERS, 0.55), None if rng.random() < 0.6 else _pick(rng, obs)]
     if r < 0.73:
         return ["hold"] + scope + [_o(rng, [1, 2], 0.7)]
     if r < 0.81:
@@ -85,6 +100,11 @@ def gen_op(rng, alive, depth=0, in_script=False):
 
 
 def gen_case(rng, maxlen):
+    # most of a case revolves around one (name, sender, observer) so that scopes interact
+    FOCUS.clear()
+    if rng.random() < 0.8:
+        FOCUS[id(NAMES)] = rng.choice(NAMES)
+        FOCUS[id(SENDERS)] = rng.choice(SENDERS)
     alive = set(OBSERVERS)
     ops = []
     # a populated registry first
@@ -108,10 +128,64 @@ def gen_case(rng, maxlen):
     return dict(ops=ops, via_base=rng.random() < 0.3)
 
 
+def gen_bracket_case(rng, maxlen):
+    """structured histories: suspensions opened in some order around bodies of posts, closed in any order"""
+    FOCUS.clear()
+    n0, s0 = rng.choice(NAMES), rng.choice(SENDERS)
+    FOCUS[id(NAMES)] = n0
+    FOCUS[id(SENDERS)] = s0
+    ops = []
+    regs = set()
+    for _ in range(rng.randint(2, 5)):
+        o, n, sd = rng.choice(OBSERVERS), rng.choice([None, n0, n0, rng.choice(NAMES)]), rng.choice([None, s0, s0, rng.choice(SENDERS)])
+        if (o, n, sd) in regs:
+            continue
+        regs.add((o, n, sd))
+        ops.append(["add", o, rng.choice(METHS), n, sd, _o(rng, IDENTS, 0.6)])
+    o0 = rng.choice(OBSERVERS)
+
+    def scope():
+        return [rng.choice([None, n0, n0]), rng.choice([None, s0, s0]), rng.choice([None, None, o0, rng.choice(OBSERVERS)])]
+
+    def body(k):
+        for _ in range(k):
+            r = rng.random()
+            if r < 0.7:
+                ops.append(["post", n0 if rng.random() < 0.8 else rng.choice(NAMES),
+                            s0 if rng.random() < 0.8 else rng.choice(SENDERS), rng.randrange(3)])
+            elif r < 0.8:
+                ops.append(["remove", rng.choice(OBSERVERS), rng.choice([None, n0]), rng.choice([None, s0])])
+            elif r < 0.9:
+                ops.append(["add", rng.choice(OBSERVERS), rng.choice(METHS), rng.choice([None, n0]), rng.choice([None, s0]), None])
+            else:
+                ops.append(["script", rng.choice(OBSERVERS[:3]), rng.choice(METHS),
+                            [gen_op(rng, set(OBSERVERS), 1, True) for _ in range(rng.randint(1, 2))]])
+    open_ = []
+    for _ in range(rng.randint(1, 3)):
+        kind = rng.choice(["hold", "hold", "disable"])
+        sc = scope()
+        open_.append((kind, sc))
+        ops.append([kind] + sc + ([None] if kind == "hold" else []))
+        body(rng.randint(0, 3))
+    if rng.random() < 0.3 and open_:
+        kind, sc = rng.choice(open_)       # nested request of an open scope
+        open_.append((kind, sc))
+        ops.append([kind] + sc + ([None] if kind == "hold" else []))
+    if rng.random() < 0.5:
+        rng.shuffle(open_)
+    else:
+        open_.reverse()
+    for kind, sc in open_:
+        ops.append(["release" if kind == "hold" else "enable"] + sc)
+        body(rng.randint(0, 2))
+    body(rng.randint(1, 2))
+    return dict(ops=ops[:maxlen + 10], via_base=rng.random() < 0.3)
+
+
 def generate(rng, tier):
     n, maxlen = (1500, 25) if tier == "quick" else (20000, 60)
-    for _ in range(n):
-        yield gen_case(rng, maxlen)
+    for i in range(n):
+        yield gen_bracket_case(rng, maxlen) if i % 2 else gen_case(rng, maxlen)
 
 
 def neighbourhood(case, step, rng):
